@@ -27,6 +27,7 @@ type env struct {
 	frontier types.Hash
 	mid      types.Hash
 	raw      bool // confirmation mode: nothing is recovered, a panic kills the process like it kills a real node
+	memo     txMemo
 }
 
 const (
@@ -78,6 +79,16 @@ type obsBridge struct {
 	mu    sync.Mutex
 	pan   []bridgePanic
 	calls map[string]int
+	memo  *txMemo
+}
+
+// txMemo memoizes GetTransactions (the list of unconfirmed account blocks, read once per connecting peer; it costs more
+// than a millisecond on the mock ledger). The pool can only change through AddAccountBlocks or InsertChain, both of
+// which go through this wrapper and invalidate the memo. Not used in raw mode.
+type txMemo struct {
+	mu    sync.Mutex
+	valid bool
+	txs   []*nom.AccountBlock
 }
 
 func (b *obsBridge) note(method string) {
@@ -112,13 +123,32 @@ func (b *obsBridge) takePanics() []bridgePanic {
 
 var errObservedPanic = fmt.Errorf("verif: panic observed below the chain bridge")
 
+func (b *obsBridge) invalidate() {
+	if b.memo != nil {
+		b.memo.mu.Lock()
+		b.memo.valid = false
+		b.memo.mu.Unlock()
+	}
+}
+
 func (b *obsBridge) AddAccountBlocks(blocks []*nom.AccountBlock) (err error) {
 	b.note("AddAccountBlocks")
+	b.invalidate()
+	defer b.invalidate()
 	defer b.guard("AddAccountBlocks", func() { err = errObservedPanic })
 	return b.inner.AddAccountBlocks(blocks)
 }
 func (b *obsBridge) GetTransactions() (out []*nom.AccountBlock) {
 	defer b.guard("GetTransactions", func() { out = nil })
+	if b.memo != nil && !b.raw {
+		b.memo.mu.Lock()
+		defer b.memo.mu.Unlock()
+		if !b.memo.valid {
+			b.memo.txs = b.inner.GetTransactions()
+			b.memo.valid = true
+		}
+		return append([]*nom.AccountBlock{}, b.memo.txs...)
+	}
 	return b.inner.GetTransactions()
 }
 func (b *obsBridge) HasBlock(hash types.Hash) (ok bool) {
@@ -145,6 +175,8 @@ func (b *obsBridge) Status() (uint64, types.Hash, types.Hash) {
 }
 func (b *obsBridge) InsertChain(chain []*nom.DetailedMomentum) (idx int, err error) {
 	b.note("InsertChain")
+	b.invalidate()
+	defer b.invalidate()
 	defer b.guard("InsertChain", func() { idx, err = 0, errObservedPanic })
 	return b.inner.InsertChain(chain)
 }
